@@ -143,6 +143,32 @@ func runC02(c *Ctx) {
 			}
 		}
 	}
+	// the windows hold whatever the other settings are (IdP-initiated mode, application validators, entity ID)
+	for i := 0; i < 5; i++ {
+		cfg := defaultCfg()
+		class := ""
+		ids := 0
+		switch i {
+		case 0:
+			cfg.AllowIdpInit, class = true, "idp-initiated"
+		case 1:
+			cfg.CustomReqID, class = Bptr(true), "custom-reqid-validator"
+		case 2:
+			cfg.CustomAud, class = Bptr(true), "custom-audience-validator"
+		case 3:
+			cfg.SpEntity, class = "urn:sp:entity", "entity-id-set"
+		case 4:
+			cfg.Trust, cfg.C, class = tPinned, 0, "pinned-certificate"
+		}
+		_ = ids
+		for pos := 0; pos < 5; pos++ {
+			for _, kk := range []int{0, 1} {
+				v := [5]int{2, 2, 2, 2, 2}
+				v[pos] = kk
+				mk(cfg, now0, v, 1+pos%2, 0, 1, 0, class)
+			}
+		}
+	}
 	// several confirmations, the expired one at each position
 	for nconf := 2; nconf <= 3; nconf++ {
 		for bad := 0; bad < nconf; bad++ {
